@@ -68,41 +68,43 @@ def check(run, prog, tier):
     run.ob("C09-a", "recover:%s:backend" % rel(be.file), not unarmed,
            "no raising call between save_context and setjmp" if not unarmed else "raising calls before the recovery point is armed: %s" % unarmed,
            be.file, unarmed[0][1] if unarmed else be.line, "backend", what="backend(): %s can raise before setjmp arms the driver's recovery point" % (unarmed[0][0] if unarmed else ""))
+    # (on the view with small file-local helpers spliced in: the start-up steps may sit in a helper that is handed the flags)
+    bi = prog.funci("backend") or be
     # re-executed region: from the setjmp block to the head of the outermost loop
-    sj = [(b, i, n) for b, i, n in be.calls() if n.get("fn") in ctxstate.SETJMP]
+    sj = [(b, i, n) for b, i, n in bi.calls() if n.get("fn") in ctxstate.SETJMP]
     run.need(sj, "setjmp in backend")
     sjb = sj[0][0]
     # loop head = first block (in forward order) that dominates itself through a back edge: find blocks with a predecessor they dominate
-    heads = [bid for bid in be.reachable() if any(be.dominates(bid, p) for p in be.blocks[bid].preds)]
-    heads = [h for h in heads if be.dominates(sjb.id, h)]
+    heads = [bid for bid in bi.reachable() if any(bi.dominates(bid, p) for p in bi.blocks[bid].preds)]
+    heads = [h for h in heads if bi.dominates(sjb.id, h)]
     run.need(heads, "main loop after setjmp in backend")
     # outermost = the head that dominates all other heads
-    outer = [h for h in heads if all(be.dominates(h, o) for o in heads)]
+    outer = [h for h in heads if all(bi.dominates(h, o) for o in heads)]
     head = outer[0] if outer else heads[0]
-    region = cfgq.reach_set(be, sjb.live_succ(), avoid_blocks=[head])
+    region = cfgq.reach_set(bi, sjb.live_succ(), avoid_blocks=[head])
     bad = []
     nreg = 0
-    for b, i, n in be.calls():
+    for b, i, n in bi.calls():
         if b.id not in region:
             continue
         nreg += 1
         fn = n.get("fn") or show(n)
-        if fn in REEXEC_SAFE or not (eff.call_may_run_lpc(be, n) or eff.call_may_raise(be, n)):
-            continue
+        if n.get("spliced") or fn in REEXEC_SAFE or not (eff.call_may_run_lpc(bi, n) or eff.call_may_raise(bi, n)):
+            continue        # (a spliced call: its statements are in the region themselves)
         # once-guard: the call is guarded by `!flag` where flag is a local set to a non-zero constant in the same guarded block before the call
         once = False
-        for c, truth, B in cfgq.guards(be, b.id):
+        for c, truth, B in cfgq.guards(bi, b.id):
             e = _flag_clear(c, truth)
             if e is not None and e.get("d") == "local":
-                for b2, i2, n2 in be.nodes():
+                for b2, i2, n2 in bi.nodes():
                     if n2.get("k") == "Asg" and strip(n2["L"]).get("id") == e.get("id") and const_val(n2["R"]) not in (None, 0) \
-                            and be.point_dominates((b2.id, i2), (b.id, i)) and be.dominates(B, b2.id):
+                            and bi.point_dominates((b2.id, i2), (b.id, i)) and bi.dominates(B, b2.id):
                         once = True
         if not once:
             bad.append((fn, n.get("l")))
-    run.ob("C09-a", "reexec:%s:backend" % rel(be.file), not bad,
+    run.ob("C09-a", "reexec:%s:backend" % rel(bi.file), not bad,
            "%d call(s) in the re-executed region; all are restore_context, non-raising, or run once under a flag" % nreg if not bad else
-           "re-executed after every uncaught error without a once-guard: %s" % bad, be.file, bad[0][1] if bad else sjb.term and sjb.term.get("l"), "backend",
+           "re-executed after every uncaught error without a once-guard: %s" % bad, bi.file, bad[0][1] if bad else sjb.term and sjb.term.get("l"), "backend",
            what="backend(): %s is re-executed after every uncaught error" % (bad[0][0] if bad else ""))
     # the loop context is popped on exit and the loop is an endless loop under the armed context (typestate exits)
     exits_bad = [cur for kind, v, blk, idx, n, cur in a.events if kind in ("return", "exit") and any(s & {"saved", "armed", "jumped", "recovered"} for s in cur.values())]
